@@ -70,7 +70,8 @@ class CaseDomain(so.StreamDomain):
         return super().root_attr_absent(attr) or attr not in self._BASE_ATTRS
     invented_bases = {cls: bases for cls, bases, _ in SUBCLASSES.values()}
     """``script``: user callable name -> list of actions: ("call", method, pos, kw) on the case, ("raise", exception),
-    ("return", value), ("set", attribute, value), ("once", action) -- the action in the first call of that callable
+    ("return", value), ("set", attribute, value), ("handler", entry, first) -- the user inserts the entry at the front /
+    appends it to ``self.exception_handlers`` --, ("once", action) -- the action in the first call of that callable
     only; a callable without script returns None.  ``result_raises``: result methods that raise."""
 
     def __init__(self, classes, script, result_raises=(), lacks=(), extra_attrs=None, answers=None, snapshot_on=None, **kw):
@@ -137,6 +138,9 @@ class CaseDomain(so.StreamDomain):
                     states = []
                 elif action[0] == "set":
                     states = [s_.set("self." + action[1], action[2]) for s_ in states]
+                elif action[0] == "handler":
+                    # self.exception_handlers.insert(0, entry) / .append(entry), done by the user's code while the test runs
+                    states = [s2 for s2 in (with_handler(s_, action[1], action[2]) for s_ in states) if s2 is not None]
                 states = states + held
                 if not states:
                     break
@@ -148,6 +152,17 @@ class CaseDomain(so.StreamDomain):
         if isinstance(value, tuple) and value[:2] == ("exc", "MultipleExceptions") and attr == "args" and len(value) >= 4:
             return [val(("tuple",) + tuple(value[3]), st)]
         return super().attr_of_value(interp, value, attr, st, fr)
+
+
+def with_handler(st, entry, first):
+    """The state after `case.exception_handlers.insert(0, entry)` / `.append(entry)`; None when that is not a list."""
+    from ..absint import heap_key, is_handle
+    v = st.get("self.exception_handlers", None)
+    key = heap_key(v) if is_handle(v) else "self.exception_handlers"
+    cur = st.get(key, None)
+    if not (isinstance(cur, tuple) and cur[:1] == ("tuple",)):
+        return None
+    return st.set(key, ("tuple", entry) + tuple(cur[1:]) if first else cur + (entry,))
 
 
 def case_class(ctx):
